@@ -93,7 +93,24 @@ def limitsOk (lim : Limits) : Bool :=
   lim.temperature.lo == 0 && lim.temperature.hi ≥ 1000000 && lim.temperature.scanMin < 0 &&
   lim.topP.lo == 0 && lim.topP.hi ≥ 1000000 && lim.topP.scanMin < 0 &&
   lim.maxTokens.lo == 1 && lim.maxTokens.hi == lim.maxTokens.scanMax && lim.maxTokens.scanMin < 1 &&
-  lim.topK.lo == 0 && lim.topK.hi == lim.topK.scanMax && lim.topK.scanMin < 0
+  lim.maxTokens.lo ≤ lim.maxTokens.hi &&
+  lim.topK.lo == 0 && lim.topK.hi == lim.topK.scanMax && lim.topK.scanMin < 0 && lim.topK.lo ≤ lim.topK.hi
+
+/-- Field values the property certainly calls invalid, whatever the exact limits: no model, no
+    messages, max_tokens below 1, a negative temperature / top_p / top_k. -/
+def fieldsCertainlyBad (r : AReq) : Bool :=
+  r.model == "" || r.messages.isEmpty || r.maxTokens < 1 ||
+  (match r.temperature with | some t => t.micros < 0 | none => false) ||
+  (match r.topP with | some t => t.micros < 0 | none => false) ||
+  (match r.topK with | some k => k < 0 | none => false)
+
+/-- Field values the property certainly calls valid: model and messages present, max_tokens ≥ 1,
+    temperature and top_p inside Anthropic's own range 0..1, top_k ≥ 0. -/
+def fieldsCertainlyGood (r : AReq) : Bool :=
+  r.model != "" && !r.messages.isEmpty && r.maxTokens ≥ 1 &&
+  (match r.temperature with | some t => 0 ≤ t.micros && t.micros ≤ 1000000 | none => true) &&
+  (match r.topP with | some t => 0 ≤ t.micros && t.micros ≤ 1000000 | none => true) &&
+  (match r.topK with | some k => 0 ≤ k | none => true)
 
 /-! ### Role discipline (what the Anthropic API itself insists on) -/
 
